@@ -208,3 +208,32 @@ class VirtualLoop(base_events.BaseEventLoop):
             self.close()
         except BaseException:
             pass
+
+
+class Script:
+    """delivers a sequence of external events at non-decreasing ticks.  Consecutive
+    events at the same tick may share one I/O batch (same loop iteration, script
+    order) - a symbolic choice per event - or arrive in separate iterations."""
+
+    def __init__(self, loop, E):
+        self.loop, self.E = loop, E
+        self.batch = []
+        self.t = None
+        self.name = None
+
+    def at(self, t, cb, name, joinable=True):
+        if self.batch and joinable:
+            if t == self.t and self.E.flag("join_%s" % name):
+                self.batch.append(cb)
+                return
+        self.flush()
+        self.t, self.batch, self.name = t, [cb], name
+
+    def flush(self):
+        if self.batch:
+            batch, self.batch = self.batch, []
+            self.loop.deliver(self.t, batch, name=self.name)
+
+    def finish(self, horizon=2**62):
+        self.flush()
+        self.loop._drain(horizon, inclusive=True)
